@@ -349,7 +349,19 @@ class Console:
         for q in self.outq.values():
             q.clear()
 
+    def release(self) -> None:
+        """End a hold: frames queued meanwhile leave now (in order)."""
+        self.hold = False
+        for tr in self.net.conns:
+            if self.outq.get(tr.cid) and not self.pumping.get(tr.cid) and tr.alive:
+                self.pumping[tr.cid] = True
+                self.loop.call_soon(self._pump, tr)
+
     def _pump(self, tr) -> None:
+        if getattr(self, "hold", False):
+            # the harness is delivering a frame by hand (in two segments): nothing may be interleaved into it
+            self.pumping[tr.cid] = False
+            return
         q = self.outq.get(tr.cid, [])
         while q and q[0][0] == "mark":
             _, label, frame = q.pop(0)
